@@ -202,6 +202,7 @@ def run(chk):
                               witness=dict(engine="CG", fn="run_batched_cg", dtype=d, zero=zero_b)))
     run_cases(chk, "C12", cases, backend=cfns)
     iterations_standin(chk)
+    winfo_conformance(chk)
     chk.extra["dependency_contracts_used"] = sorted(cfns.USED)
     st = alg.lemma_stats()
     chk.extra["lemmas"] = dict(total=st["total"], mathlib_named=st["mathlib_named"], assumed=[f"{n}: {w}" for n, w in st["assumed"]])
@@ -286,3 +287,56 @@ def iterations_standin(chk):
         ob.witness = dict(engine="direct", failing_input_found=True, observed=f"iterations={bad[1]}", expected=f"{bad[0]}", input=f"toy loop of {bad[0]} steps")
     chk.add(ob)
     chk.under_contract("cola.utils.torch_tqdm.while_loop_winfo", how="contract stub (invariant rule) in proofs; iteration count: bounded stand-in")
+
+
+def winfo_conformance(chk):
+    """The loop contract used by every Krylov/CG proof (invariant rule: 'runs body_fun while cond_fun holds, from init_val') checked on the REAL
+    while_loop_winfo: with the backend loop replaced by a recording stub, the condition handed to the loop must return exactly what the algorithm's own
+    cond_fun returns - for error values below and above tol, on the first and on later evaluations, for every `every` - and the body and the initial state
+    must be passed through unchanged.  (A wrapper that stops on its own criterion, e.g. error < tol, silently changes every algorithm's stopping rule.)"""
+    import importlib
+    tq = importlib.import_module("cola.utils.torch_tqdm")
+    t0 = time.time()
+    bad = []
+    n_cases = 0
+    real_loop = tq.while_loop
+    for tol in (1e-3, 0.0):
+        for every in (1, 3):
+            for max_iters in (None, 50):
+                cap = {}
+
+                def stub(cond, body, init):
+                    # the recording stub of the backend loop evaluates the condition six times (what a loop would do) and runs no body
+                    cap.update(body=body, init=init, got=[cond(("STATE", k)) for k in range(6)])
+                    return init
+                tq.while_loop = stub
+                try:
+                    errs = iter([5.0, 1e-9, 0.0, 7.0, 1e-12, 3.0, -1.0])
+                    wl, info = tq.while_loop_winfo(lambda s: next(errs), tol, max_iters=max_iters, every=every, pbar=False)
+                    body = lambda s: s          # noqa: E731
+                    token_true, token_false = object(), object()
+                    answers = iter([token_true, token_true, token_false, token_true, token_false, token_true])
+                    init = ("STATE",)
+                    wl(lambda s: next(answers), body, init)
+                    if cap.get("body") is not body or cap.get("init") is not init:
+                        bad.append(f"tol={tol}, every={every}: body or initial state not passed through")
+                    want = iter([token_true, token_true, token_false, token_true, token_false, token_true])
+                    for k in range(6):
+                        n_cases += 1
+                        got = cap["got"][k]
+                        w = next(want)
+                        if got is not w:
+                            bad.append(f"tol={tol}, every={every}, max_iters={max_iters}, evaluation {k}: the loop condition returned {got!r}, the algorithm's cond_fun returned its own value")
+                            break
+                except Exception as e:
+                    bad.append(f"tol={tol}, every={every}: raises {type(e).__name__}: {e}")
+                finally:
+                    tq.while_loop = real_loop
+    ob = Ob(key="C12/while_loop_winfo/the loop runs on the algorithm's own condition, body and initial state (independent of the tracked error and tol)",
+            fn="cola.utils.torch_tqdm.while_loop_winfo", clause="loop contract used by the invariant rule", engine="FRAME", secs=time.time() - t0,
+            status=DISCHARGED if not bad else FAILED, backend="real wrapper over a recording stub of the backend loop; exhaustive over its branches (error <, >= tol; first / later evaluation; every)",
+            detail=f"{n_cases} condition evaluations" if not bad else bad[0])
+    ob.smt = "forall errorfn tol state. newcond(state) = cond_fun(state)  /\\  while_loop is called with (newcond, body_fun, init_val)"
+    if bad:
+        ob.witness = dict(engine="direct", failing_input_found=True, observed=bad[0], expected="cond_fun's own value", input="while_loop_winfo with a tracked error below tol")
+    chk.add(ob)
